@@ -186,6 +186,38 @@ def run(tier):
                 rep.fail("LOCKSET@%s#processes" % f.qname,
                          "%s: the process table is accessed without processesAccess in %s while the SIGCHLD handler "
                          "may iterate over it" % (rel(f.short_loc(sid)), f.qname))
+    # R2b: the record of a reaped status is published to the reader either by program order (the waiting thread's own
+    # call in wait(), followed by its own read in execute) or through processesAccess (any other reaper: the reader
+    # re-acquires processesAccess after wait() returned on ECHILD, see STATUS-READ below) -- so every call of
+    # setProcessExitStatus outside wait() must hold processesAccess.
+    for f in funcs:
+        calls = [s_ for s_, n in f.stmts.items() if n["k"] == "CXXMemberCallExpr"
+                 and (n.get("callee") or "") == PM + "::setProcessExitStatus"]
+        if not calls:
+            continue
+        g = guard_decls(f)
+        step = lock_transfer(f, g)
+        seen_ = {}
+
+        def el2b(held, b, i, e):
+            if e.get("s") in calls:
+                seen_.setdefault(e["s"], []).append("processesAccess" in held_mutexes(held))
+            return (step(held, e),)
+        forward(f, [frozenset()], el2b)
+        for sid in calls:
+            rep.count("call sites of setProcessExitStatus")
+            if f.qname == PM + "::wait" and f.parent is None:
+                rep.ok("%s: wait() records the status in the waiting thread itself (program order with the read in execute)"
+                       % rel(f.short_loc(sid)))
+                continue
+            v = seen_.get(sid)
+            if v and all(v):
+                rep.ok("%s: %s records the reaped status while holding processesAccess" % (rel(f.short_loc(sid)), f.qname))
+            else:
+                rep.fail("RECORD-OUTSIDE-LOCK@%s" % f.qname,
+                         "%s: %s records the exit status without holding processesAccess: after the handler reaped the child "
+                         "and released the lock, wait() returns on ECHILD and execute() can read the not-yet-recorded (default) "
+                         "status" % (rel(f.short_loc(sid)), f.qname))
     # premises of the exemptions
     for f in funcs:
         for sid, n in f.stmts.items():
@@ -365,6 +397,7 @@ def run(tier):
     rep.floor("uses of a waitpid status", 2)
     rep.floor("accesses to ProcessManager::processes", 8)
     rep.floor("decoder table rows", 5)
+    rep.floor("call sites of setProcessExitStatus", 2)
     rep.floor("wait-macro wrappers compared", 4)
     rep.assumptions += [
         "the per-process fields isRunning/exitStatus/exitValue are written by the unique reaper (the caller whose waitpid "
